@@ -4,7 +4,12 @@
   Model: `RotoV/Model/Registration.lean` (`register` = the public item
   constructors + `Rt::add`; `Cfg.fixed` is the source as it is now, tied to the
   working tree by the correspondence run `harness/src/bin/c18.rs`;
-  `Cfg.pinned` is the pinned tree).  Helper lemmas: `RotoV/Lemmas/Registration.lean`.
+  `Cfg.pinned` is the pinned tree).  Helper lemmas: `RotoV/Lemmas/Registration.lean`
+  (invariant, T1), `RegistrationOps` (`add_eq`: `Rt::add` is five lists of guarded
+  insertions), `RegistrationClosed` (closed form of a pass, permutation
+  invariance), `RegistrationOrder` (T4), `RegistrationExact` / `RegistrationDefects` /
+  `RegistrationAccepts` (T2), `RegistrationReach` / `RegistrationOrigin` (T3).  The
+  theorems that mention the regenerated pass structure live in `Props/C18Passes.lean`.
 
   `library!`: the `use` declarations it accepts are `RotoV.Use.UseTree`
   (`RotoV/Model/UseTree.lean`); `flatten_use_tree` of `macros/src/lib.rs` is
@@ -14,8 +19,7 @@
   breaks exactly those obligations and a change to the lexer's keyword table
   exactly the ones here.
 -/
-import RotoV.Lemmas.Registration
-import RotoV.Lemmas.RegistrationUse
+import RotoV.Lemmas.RegistrationOrigin
 import RotoV.Generated.Keywords
 
 namespace RotoV.C18
@@ -62,27 +66,9 @@ theorem add_sequence_no_panic (lex : Name → Lex) :
 
 /-! ## T2 — fails exactly for the listed defects -/
 
-/- **T2 `add_fails_iff`** (full statement): `register Cfg.fixed lex st items`
-   is `err _` iff the library has (1) a named item whose name is not a valid
-   non-keyword identifier, or (2) two items binding the same name in one scope
-   (or a name bound there already in `st`; for `use` items: two uses binding the
-   same name in the scope they are registered in), or (3) a `type` item whose
-   Rust type id is registered in `st` or by another `type` item, or (4) a
-   function / constant / impl block mentioning a type id registered neither in
-   `st` nor by the library — or one of the structural errors the API also
-   reports: a module, type or impl block inside an impl block, a `use` item
-   with an empty path, a `use` path through something that owns no scope.
-
-   Proved below (`add_fails_iff_partial`): clause (1) in both directions
-   (an invalid name anywhere makes the registration fail with `invalidName`
-   before `Rt::add` runs; with valid names `register` is `Rt::add`), and the
-   "only if" direction of clause (4) for functions and constants (on success
-   every mentioned type is registered — `reachable_partial`).  Missing: the
-   characterisation of clauses (2) and (3) and the "if" direction of (4); the
-   correspondence run injects each of the four defects at every position. -/
-
-/-- **T2, clause (1)** and the reduction to `Rt::add`. -/
-theorem add_fails_iff_partial (lex : Name → Lex) (st : St) (items : Items) :
+/-- **T2, clause (1) first**: the item constructors check every name before
+    `Rt::add` runs; with valid names `register` is `Rt::add`. -/
+theorem names_checked_first (lex : Name → Lex) (st : St) (items : Items) :
     (¬ NamesValid lex items → register Cfg.fixed lex st items = .err .invalidName) ∧
     (NamesValid lex items → register Cfg.fixed lex st items = add Cfg.fixed lex st items) := by
   constructor
@@ -92,26 +78,40 @@ theorem add_fails_iff_partial (lex : Name → Lex) (st : St) (items : Items) :
   · intro h
     simp [register, (namesOk_iff lex items).mpr h]
 
+/-- **T2 `add_succeeds_iff`.** For every library, lexer verdict and
+    well-formed runtime: the registration succeeds **iff** the library satisfies
+    every clause of `Accepts` — (1) valid names, (2) no name bound twice in a
+    scope or bound already (modules, types, functions and methods, constants,
+    imports; a method's scope is the one its *type* owns), (3) no Rust type
+    registered twice, (4) every signature, constant and impl block mentions
+    registered types only, and the structural demands of the API (nothing nested
+    in an impl block, `use` paths non-empty and through scope-owning items) —
+    and the resulting runtime is then the closed-form table `S5`. -/
+theorem add_succeeds_iff (lex : Name → Lex) (st : St) (hw : WF st) (items : Items) (st' : St) :
+    register Cfg.fixed lex st items = .ok st' ↔ Accepts lex st items ∧ st' = S5 lex st items := by
+  rw [register_ok_iff lex hw, ← and_assoc, accepts_iff lex hw]
+
+/-- **T2 `add_fails_iff`.** `Rt::add` returns a registration error **iff** the
+    library has one of the listed defects, i.e. violates a clause of `Accepts`
+    (never a panic: `add_no_panic`). -/
+theorem add_fails_iff (lex : Name → Lex) (st : St) (hw : WF st) (items : Items) :
+    (∃ e, register Cfg.fixed lex st items = .err e) ↔ ¬ Accepts lex st items := by
+  rw [register_err_iff lex hw, accepts_iff lex hw]
+
 /-! ## T3 — reachable where declared -/
 
-/- **T3 `reachable`** (full statement): after `register … = ok st'`, every
-   function, method, constant and type of the library resolves (`resolvePath`)
-   at its declared path — module path ++ name, for methods and impl constants
-   the declared path of the type ++ name — and at `[last] ++ rest` for every
-   top-level `use` of a prefix of that path, to a declaration that carries the
-   item's own identity (`tag`) and its declared signature with every Rust type
-   replaced by the Roto name of the registered type; and at no other path.
-
-   Proved below (`reachable_partial`): the declared-path half for functions,
-   constants and types under any module nesting; `reachable_use_paths` /
-   `reachable_through_use`: the paths named by `use` items (every path bound
-   to the scope its own segments lead to; functions and constants end to end).
-   Missing: methods and constants inside impl blocks and the "nowhere else"
-   half; the correspondence run checks both on every generated library.  Refuted for a `use` *inside* a module
-   (`use_in_module_lands_in_parent`, known finding). -/
+/- **T3 `reachable`**: `reachable_declared` (functions, constants, types at
+   their declared path), `reachable_impl_items` (methods and constants of impl
+   blocks at the declared path of the *type*), `reachable_use_paths` /
+   `reachable_through_use` (the paths `use` items name), `tables_hold_exactly` and
+   `reachable_nowhere_else` / `reachable_only_items` (nothing else is declared,
+   every declaration is one item, and a script path resolves only along a
+   declaration's own path or a root import).  Refuted for
+   a `use` *inside* a module (`use_in_module_lands_in_parent`, known finding;
+   `use_in_module_not_repairable_by_registration`). -/
 
 /-- **T3, declared-path half** for functions, constants and types. -/
-theorem reachable_partial (lex : Name → Lex) (st st' : St) (hw : WF st) (items : Items)
+theorem reachable_declared (lex : Name → Lex) (st st' : St) (hw : WF st) (items : Items)
     (h : register Cfg.fixed lex st items = .ok st') (p : List Name) :
     (∀ n ps r tag, ItemAt items p (.function n ps r tag) →
       ∃ ps' r', convTys st' ps = .ok ps' ∧ convTy st' r = .ok r' ∧
@@ -207,50 +207,188 @@ theorem reachable_through_use (lex : Name → Lex) (st st' : St) (hw : WF st) (i
     obtain ⟨ty', c1, c2⟩ := hq
     exact ⟨ty', c1, by rw [hres, c2]; rfl⟩
 
+/-- **T3 for impl blocks (`reachable_impl_items`).** After a successful
+    registration, for every impl block of the library — wherever it stands in
+    the module tree — for the type `tn` declared at module path `p`: every method
+    and every constant of the block resolves from a script at `p ++ [tn, name]`,
+    the declared path of the *type* followed by the name, to a declaration with
+    the item's identity and its declared signature. -/
+theorem reachable_impl_items (lex : Name → Lex) (st st' : St) (hw : WF st) (items : Items)
+    (h : register Cfg.fixed lex st items = .ok st')
+    {p q : List Name} {tn : Name} {id : TyId} {ch : Items}
+    (ht : ItemAt items p (.type tn id)) (hi : ItemAt items q (.impl id ch)) :
+    (∀ n ps r tag, Item.function n ps r tag ∈ ch.toList →
+      ∃ ps' r', convTys st' ps = .ok ps' ∧ convTy st' r = .ok r' ∧
+        resolvePath st' (p ++ [tn] ++ [n]) = some ⟨.method ps' r' tag, none⟩) ∧
+    (∀ n cty tag, Item.constant n cty tag ∈ ch.toList →
+      ∃ ty', convTy st' cty = .ok ty' ∧
+        resolvePath st' (p ++ [tn] ++ [n]) = some ⟨.const ty' tag, none⟩) := by
+  obtain ⟨hn, hc, rfl⟩ := (register_ok_iff lex hw items st').mp h
+  have hw' : WF (S5 lex st items) := (checks_stages lex hw items hc).2.2.2.2.2
+  obtain ⟨s, _, _, hs, hconv, _, _⟩ := (reachable_declared lex st _ hw items h p).2.2 tn id ht
+  have hsp := scopeAt_path hw' p [] s hs
+  simp only [List.nil_append] at hsp
+  subst hsp
+  obtain ⟨nm, hnm, hm, hk⟩ := impl_items_declared lex hw items hc hi
+  have hnm' : nm = ⟨s, tn⟩ := by
+    simp only [convTy, hnm, Res.ok.injEq, RotoTy.name.injEq] at hconv
+    exact hconv
+  subst hnm'
+  obtain ⟨d, sc, hd, hsc⟩ := hw'.types id _ hnm
+  have hg : (S5 lex st items).getScopeOf s tn = some sc := by simp [St.getScopeOf, hd, hsc]
+  have hsc' := getScopeOf_path hw' hg
+  have hsnoc := scopeAt_snoc s [] s tn sc hs hg
+  refine ⟨fun n ps r tag hmem => ?_, fun n cty tag hmem => ?_⟩
+  · obtain ⟨ps', r', h1, h2, h3⟩ := hm n ps r tag hmem
+    refine ⟨ps', r', h1, h2, resolvePath_scopeAt _ (s ++ [tn]) sc n _ hsnoc ?_⟩
+    rw [hsc']; exact h3
+  · obtain ⟨ty', h1, h3⟩ := hk n cty tag hmem
+    refine ⟨ty', h1, resolvePath_scopeAt _ (s ++ [tn]) sc n _ hsnoc ?_⟩
+    rw [hsc']; exact h3
+
+/-- **T3, "nothing else" at the level of the tables (`tables_hold_exactly`).**
+    After a successful registration the declaration table, the imports and the
+    registered types hold exactly what they held before and what the library
+    declares (`Declared`: its modules, types, functions, methods and constants,
+    each under the name `DOp.key` gives and with the converted signature;
+    `Imported`: one root import per `use` path). -/
+theorem tables_hold_exactly (lex : Name → Lex) (st st' : St) (hw : WF st) (items : Items)
+    (h : register Cfg.fixed lex st items = .ok st') :
+    (∀ k d, st'.decls k = some d ↔ st.decls k = some d ∨ (k, d) ∈ Declared lex st items) ∧
+    (∀ s n t, st'.imports s n = some t ↔
+      st.imports s n = some t ∨ (s = [] ∧ (n, t) ∈ Imported lex st items)) ∧
+    (∀ i nm, st'.types i = some nm ↔ st.types i = some nm ∨ ∃ t ∈ ops2 items, t.id = i ∧ t.nm = nm) := by
+  obtain ⟨_, hc, rfl⟩ := (register_ok_iff lex hw items st').mp h
+  exact tables_exact lex items hc
+
+/-- **T3, "at no other path" (`reachable_nowhere_else`).** After a successful
+    registration, whatever a script path `p` resolves to is a declaration that
+    the runtime held before or that the library declares, and `p` is that
+    declaration's own path — or the path of a root import (held before, or made
+    by a `use` path of the library) followed by the rest of the declaration's
+    path. -/
+theorem reachable_nowhere_else (lex : Name → Lex) (st st' : St) (hw : WF st) (items : Items)
+    (h : register Cfg.fixed lex st items = .ok st') (p : List Name) (d : Decl)
+    (hr : resolvePath st' p = some d) :
+    ∃ k, (st.decls k = some d ∨ (k, d) ∈ Declared lex st items) ∧
+      (k.path = p ∨ ∃ n rest tgt, p = n :: rest ∧
+        (st.imports [] n = some tgt ∨ (n, tgt) ∈ Imported lex st items) ∧ k.path = tgt.path ++ rest) := by
+  obtain ⟨hd, himp, _⟩ := tables_hold_exactly lex st st' hw items h
+  have hw' : WF st' := by
+    have := add_no_panic lex st hw items
+    rw [h] at this
+    exact this.2
+  obtain ⟨k, hk, hp⟩ := resolvePath_key hw' p d hr
+  refine ⟨k, (hd k d).mp hk, ?_⟩
+  rcases hp with hp | ⟨n, rest, tgt, h1, _, h3, h4⟩
+  · exact Or.inl hp
+  · refine Or.inr ⟨n, rest, tgt, h1, ?_, h4⟩
+    rcases (himp [] n tgt).mp h3 with a | ⟨_, a⟩
+    · exact Or.inl a
+    · exact Or.inr a
+
+/-- **T3, "at no other path", in terms of the items (`reachable_only_items`).**
+    After a successful registration, whatever a script path `p` resolves to was
+    declared before or is the declaration of *one item of the library*
+    (`Origin`: a module, type, function or constant at its module path ++ name;
+    a method or constant of an impl block at the path of the block's *type* ++
+    name), and `p` is that path — or `last :: rest` for a root import
+    `last ↦ u.dropLast ++ [last]` made by a path `u` of a `use` item of the
+    library (or held before), followed by the rest of that path. -/
+theorem reachable_only_items (lex : Name → Lex) (st st' : St) (hw : WF st) (items : Items)
+    (h : register Cfg.fixed lex st items = .ok st') (p : List Name) (d : Decl)
+    (hr : resolvePath st' p = some d) :
+    ∃ k, (st.decls k = some d ∨ Origin lex st items k d) ∧
+      (k.path = p ∨ ∃ n rest tgt, p = n :: rest ∧
+        (st.imports [] n = some tgt ∨ ∃ u ∈ ops5 items, u.getLast? = some n ∧ tgt = ⟨u.dropLast, n⟩) ∧
+        k.path = tgt.path ++ rest) := by
+  obtain ⟨_, hc, _⟩ := (register_ok_iff lex hw items st').mp h
+  obtain ⟨k, hk, hp⟩ := reachable_nowhere_else lex st st' hw items h p d hr
+  refine ⟨k, hk.imp id (declared_origin lex hw items hc), ?_⟩
+  rcases hp with hp | ⟨n, rest, tgt, h1, h2, h3⟩
+  · exact Or.inl hp
+  · exact Or.inr ⟨n, rest, tgt, h1, h2.imp id (imported_origin lex hw items hc), h3⟩
+
+/-- Why the open finding `use_in_module_lands_in_parent` has no repair inside
+    registration: a script path consults imports only for its *first* segment
+    and only those of the root (every further segment is looked up among the
+    members of the scope reached, `resolve_name(.., recurse = false)`), so two
+    runtimes that agree on the declarations and on the root's imports resolve
+    every path alike — in whichever scope `declare_imports` registers a module's
+    `use`, `module.name` cannot be made to resolve through it; registering it in
+    the module's own scope would only remove the name from the root. -/
+theorem use_in_module_not_repairable_by_registration (st st' : St) (hd : st'.decls = st.decls)
+    (hi : st'.imports [] = st.imports []) (p : List Name) : resolvePath st' p = resolvePath st p :=
+  resolvePath_ignores_inner_imports st st' hd hi p
+
 /-! ## T4 — the order of items does not matter -/
 
-/- **T4 `order_indep`** (full statement): for `Shuffle items items'` (any
-   permutation of the item list at any level: top, inside modules, inside impl
-   blocks) and every `st`, `register Cfg.fixed lex st items` and
-   `register Cfg.fixed lex st items'` are both errors, or both `ok` with equal
-   tables (`decls`, `imports`, `types`, `typeNames` pointwise; scopes are named
-   by path in the model, which is the quotient by scope numbering).
+/-- **T4 `order_indep`.** For every reordering of the items at any level (top,
+    inside modules, inside impl blocks), every lexer verdict and every
+    well-formed runtime: the two registrations are both errors, or both succeed
+    with the *same* runtime (declarations, imports, registered types — scopes are
+    named by their path, the quotient by scope numbering). -/
+theorem order_indep (lex : Name → Lex) (st : St) (hw : WF st) (items items' : Items)
+    (hs : Shuffle items items') :
+    match register Cfg.fixed lex st items, register Cfg.fixed lex st items' with
+    | .ok a, .ok b => a = b
+    | .err _, .err _ => True
+    | _, _ => False := by
+  have g1 := add_no_panic lex st hw items
+  have g2 := add_no_panic lex st hw items'
+  cases h1 : register Cfg.fixed lex st items with
+  | ok a =>
+    have := register_ok_shuffle lex hw hs a h1
+    rw [this]
+  | err e =>
+    cases h2 : register Cfg.fixed lex st items' with
+    | ok b =>
+      have := register_ok_shuffle lex hw hs.symm b h2
+      rw [h1] at this
+      cases this
+    | err e' => trivial
+    | panic s => rw [h2] at g2; exact g2
+  | panic s => rw [h1] at g1; exact g1
 
-   Proved below (`order_indep_partial`): whenever both orders succeed, every
-   function and constant of the library resolves at its declared path, in both
-   resulting runtimes, to a declaration with the same identity (`tag`), and a
-   type's path resolves to a scope-owning declaration in both.  Missing: that
-   the two outcomes agree (ok / err), the equality of the converted signatures
-   and of the rest of the tables.  The correspondence run executes every
-   generated library on 2–24 orders (all orders of small libraries) and
-   compares outcomes and the result of every probe. -/
+/-- every library of a sequence reordered (each at any level) -/
+inductive ShuffleAll : List Items → List Items → Prop
+  | nil : ShuffleAll [] []
+  | cons {l l' : Items} {ls ls' : List Items} : Shuffle l l' → ShuffleAll ls ls' → ShuffleAll (l :: ls) (l' :: ls')
 
-/-- **T4, agreement of successful orders** on what every declared path means. -/
-theorem order_indep_partial (lex : Name → Lex) (st st1 st2 : St) (hw : WF st) (items items' : Items)
-    (hs : Shuffle items items')
-    (h1 : register Cfg.fixed lex st items = .ok st1) (h2 : register Cfg.fixed lex st items' = .ok st2)
-    (p : List Name) :
-    (∀ n ps r tag, ItemAt items p (.function n ps r tag) →
-      ∃ ps1 r1 ps2 r2, resolvePath st1 (p ++ [n]) = some ⟨.function ps1 r1 tag, none⟩ ∧
-        resolvePath st2 (p ++ [n]) = some ⟨.function ps2 r2 tag, none⟩) ∧
-    (∀ n ty tag, ItemAt items p (.constant n ty tag) →
-      ∃ t1 t2, resolvePath st1 (p ++ [n]) = some ⟨.const t1 tag, none⟩ ∧
-        resolvePath st2 (p ++ [n]) = some ⟨.const t2 tag, none⟩) ∧
-    (∀ n id, ItemAt items p (.type n id) →
-      ∃ d1 d2 s1 s2, resolvePath st1 (p ++ [n]) = some d1 ∧ d1.scope = some s1 ∧
-        resolvePath st2 (p ++ [n]) = some d2 ∧ d2.scope = some s2) := by
-  have a := reachable_partial lex st st1 hw items h1 p
-  have b := reachable_partial lex st st2 hw items' h2 p
-  refine ⟨fun n ps r tag hi => ?_, fun n ty tag hi => ?_, fun n id hi => ?_⟩
-  · obtain ⟨ps1, r1, _, _, e1⟩ := a.1 n ps r tag hi
-    obtain ⟨ps2, r2, _, _, e2⟩ := b.1 n ps r tag (itemAt_shuffle hs (by simp [Leaf]) hi)
-    exact ⟨ps1, r1, ps2, r2, e1, e2⟩
-  · obtain ⟨t1, _, e1⟩ := a.2.1 n ty tag hi
-    obtain ⟨t2, _, e2⟩ := b.2.1 n ty tag (itemAt_shuffle hs (by simp [Leaf]) hi)
-    exact ⟨t1, t2, e1, e2⟩
-  · obtain ⟨_, d1, s1, _, _, e1, f1⟩ := a.2.2 n id hi
-    obtain ⟨_, d2, s2, _, _, e2, f2⟩ := b.2.2 n id (itemAt_shuffle hs (by simp [Leaf]) hi)
-    exact ⟨d1, d2, s1, s2, e1, f1, e2, f2⟩
+/-- T4 over sequences of adds on one runtime: reordering the items of every
+    library of the sequence (each at any level) changes nothing — both sequences
+    fail, or both succeed with the same runtime. -/
+theorem order_indep_sequence (lex : Name → Lex) :
+    ∀ (libs libs' : List Items) (st : St), WF st → ShuffleAll libs libs' →
+      match registerAll lex st libs, registerAll lex st libs' with
+      | .ok a, .ok b => a = b
+      | .err _, .err _ => True
+      | _, _ => False
+  | [], _, st, _, h => by cases h; simp [registerAll]
+  | l :: ls, _, st, hw, h => by
+    cases h with
+    | cons h1 hs =>
+      rename_i l' ls'
+      have o := order_indep lex st hw l l' h1
+      have g := add_no_panic lex st hw l
+      simp only [registerAll]
+      cases hr : register Cfg.fixed lex st l with
+      | ok a =>
+        rw [hr] at o g
+        cases hr' : register Cfg.fixed lex st l' with
+        | ok b =>
+          rw [hr'] at o
+          subst o
+          exact order_indep_sequence lex ls ls' a g.2 hs
+        | err e => rw [hr'] at o; exact o.elim
+        | panic s => rw [hr'] at o; exact o.elim
+      | err e =>
+        rw [hr] at o
+        cases hr' : register Cfg.fixed lex st l' with
+        | ok b => rw [hr'] at o; exact o.elim
+        | err e' => trivial
+        | panic s => rw [hr'] at o; exact o.elim
+      | panic s => rw [hr] at g; exact g.elim
 
 /-! ## witnesses -/
 
@@ -270,7 +408,7 @@ example : (register Cfg.fixed lexV st0 (il [.module 0 (il [.module 1 (il [fn0 2 
 example :
     register Cfg.fixed (fun n => if n = 3 then ⟨some (some .keyword), false, true⟩ else lexV n) st0
       (il [.module 0 (il [.impl 100 (il [fn0 3 1])])]) = .err .invalidName := by
-  apply (add_fails_iff_partial _ _ _).1
+  apply (names_checked_first _ _ _).1
   simp [il, fn0, NamesValid, NameValidItem, ValidName]
 
 /-- non-vacuity of T3: a function two modules deep -/
@@ -353,6 +491,96 @@ theorem fixed_type_named_like_primitive :
     (match register Cfg.fixed lexV st0 (il [.module 0 (il [.type 50 3]), .impl 3 (il [fn0 4 8])]) with
      | .ok st => resolvePath st [0, 50, 4]
      | _ => none) = some ⟨.method [] .unit 8, none⟩ := by decide
+
+/-! ## non-vacuity of the full-strength theorems -/
+
+theorem isOk_elim {α} {r : Res α} (h : r.isOk = true) : ∃ a, r = .ok a := by
+  cases r <;> simp [Res.isOk] at h; exact ⟨_, rfl⟩
+theorem isErr_elim {α} {r : Res α} (h : r.isErr = true) : ∃ e, r = .err e := by
+  cases r <;> simp [Res.isErr] at h; exact ⟨_, rfl⟩
+
+/-- a library with a type in a module, an impl block for it at the root (one
+    method, one constant), a function that mentions the type, a `use` -/
+def libImpl : Items :=
+  il [.module 0 (il [.type 1 7]), .impl 7 (il [fn0 2 5, .constant 3 (.reg 7) 9]),
+      .function 4 [.reg 7] (.option (.reg 7)) 6, .use [[0, 1]]]
+
+/-- non-vacuity of `add_succeeds_iff`: `Accepts` is satisfiable -/
+example : Accepts lexV st0 libImpl := by
+  obtain ⟨st', h⟩ := isOk_elim (show (register Cfg.fixed lexV st0 libImpl).isOk = true by decide)
+  exact ((add_succeeds_iff lexV st0 (init_wf _ _) libImpl st').mp h).1
+
+/-- non-vacuity of `add_fails_iff`, one library per listed defect: a name bound
+    twice, a method clashing with a method of the same type from another impl
+    block, a Rust type registered twice, an unregistered type in a signature, an
+    impl block for an unregistered type, a module inside an impl block, a `use`
+    through a function -/
+example : ¬ Accepts lexV st0 (il [fn0 1 5, .module 1 .nil]) :=
+  (add_fails_iff lexV st0 (init_wf _ _) _).mp (isErr_elim (by decide))
+example : ¬ Accepts lexV st0 (il [.module 0 (il [.type 1 7, .impl 7 (il [fn0 2 5])]), .impl 7 (il [fn0 2 6])]) :=
+  (add_fails_iff lexV st0 (init_wf _ _) _).mp (isErr_elim (by decide))
+example : ¬ Accepts lexV st0 (il [.type 1 7, .module 0 (il [.type 2 7])]) :=
+  (add_fails_iff lexV st0 (init_wf _ _) _).mp (isErr_elim (by decide))
+example : ¬ Accepts lexV st0 (il [.function 1 [.list (.reg 7)] .unit 5]) :=
+  (add_fails_iff lexV st0 (init_wf _ _) _).mp (isErr_elim (by decide))
+example : ¬ Accepts lexV st0 (il [.impl 7 .nil]) :=
+  (add_fails_iff lexV st0 (init_wf _ _) _).mp (isErr_elim (by decide))
+example : ¬ Accepts lexV st0 (il [.type 1 7, .impl 7 (il [.module 2 .nil])]) :=
+  (add_fails_iff lexV st0 (init_wf _ _) _).mp (isErr_elim (by decide))
+example : ¬ Accepts lexV st0 (il [fn0 1 5, .use [[1, 2]]]) :=
+  (add_fails_iff lexV st0 (init_wf _ _) _).mp (isErr_elim (by decide))
+
+/-- non-vacuity of `reachable_impl_items`: the impl block stands at the root,
+    the type in module 0 — the method and the constant resolve below the type -/
+example : ItemAt libImpl [0] (.type 1 7) ∧ ItemAt libImpl [] (.impl 7 (il [fn0 2 5, .constant 3 (.reg 7) 9])) :=
+  ⟨.inside 0 _ (.here _ _), .there _ (.here _ _)⟩
+example :
+    (match register Cfg.fixed lexV st0 libImpl with
+     | .ok st => (resolvePath st [0, 1, 2], resolvePath st [0, 1, 3], resolvePath st [2], resolvePath st [1, 2])
+     | _ => (none, none, none, none)) =
+    (some ⟨.method [] .unit 5, none⟩, some ⟨.const (.name ⟨[0], 1⟩) 9, none⟩, none,
+     -- `use 0::1` imports the type at the root, so `1.2` names the method too
+     some ⟨.method [] .unit 5, none⟩) := by decide
+
+/-- non-vacuity of `order_indep`: reorderings at the top, in a module and in an impl block;
+    one pair that succeeds, one that fails in both orders -/
+example :
+    Shuffle libImpl (il [.use [[0, 1]], .impl 7 (il [.constant 3 (.reg 7) 9, fn0 2 5]),
+      .function 4 [.reg 7] (.option (.reg 7)) 6, .module 0 (il [.type 1 7])]) := by
+  refine .trans (.tail _ (.inImpl 7 _ (.swap _ _ _))) ?_
+  refine .trans (.swap _ _ _) ?_
+  refine .trans (.tail _ (.swap _ _ _)) ?_
+  refine .trans (.tail _ (.tail _ (.swap _ _ _))) ?_
+  refine .trans (.tail _ (.swap _ _ _)) ?_
+  exact .swap _ _ _
+example :
+    (register Cfg.fixed lexV st0 (il [fn0 1 5, .impl 7 .nil])).isErr = true ∧
+    (register Cfg.fixed lexV st0 (il [.impl 7 .nil, fn0 1 5])).isErr = true := by decide
+
+/-- non-vacuity of `order_indep_sequence`: two adds, the second uses a type of the first -/
+example : ShuffleAll [il [.type 1 7, fn0 2 5], il [.impl 7 (il [fn0 3 6]), fn0 4 8]]
+    [il [fn0 2 5, .type 1 7], il [fn0 4 8, .impl 7 (il [fn0 3 6])]] :=
+  .cons (.swap _ _ _) (.cons (.swap _ _ _) .nil)
+example : (registerAll lexV st0 [il [.type 1 7, fn0 2 5], il [.impl 7 (il [fn0 3 6]), fn0 4 8]]).isOk = true := by
+  decide
+
+/-- non-vacuity of `reachable_nowhere_else` / `tables_hold_exactly`: what the library declares -/
+example : (Declared lexV st0 libImpl).map (·.1) =
+    [⟨[], 0⟩, ⟨[0], 1⟩, ⟨[0, 1], 2⟩, ⟨[], 4⟩, ⟨[0, 1], 3⟩] ∧
+    Imported lexV st0 libImpl = [(1, ⟨[0], 1⟩)] := by decide
+
+/-- non-vacuity of `reachable_only_items`: an undeclared path resolves to nothing, the
+    declared ones and the one through the `use` do -/
+example :
+    (match register Cfg.fixed lexV st0 libImpl with
+     | .ok st => (resolvePath st [0, 2], resolvePath st [4, 1], (resolvePath st [0, 1]).isSome, (resolvePath st [1]).isSome)
+     | _ => (none, none, false, false)) = (none, none, true, true) := by decide
+
+/-- non-vacuity of `use_in_module_not_repairable_by_registration`: moving the
+    import of `witnessC` into the module's own scope changes no resolution -/
+example (st : St) : (st.insertImport [1] 2 ⟨[0], 2⟩).decls = st.decls ∧
+    (st.insertImport [1] 2 ⟨[0], 2⟩).imports [] = st.imports [] :=
+  ⟨rfl, by funext n; simp [St.insertImport]⟩
 
 /-! ## the keyword table -/
 
